@@ -600,3 +600,46 @@ def unroll_literal_loops(fn) -> int:
         i = idx + len(new)
   ast.fix_missing_locations(fn)
   return count
+
+
+def fold_constant_branches(fn) -> int:
+  """`x = True; ...; if x: A else: B` -> `x = True; ...; A` when nothing
+  between the assignment and the test (same block) can rebind x."""
+  if not isinstance(fn, (ast.FunctionDef, ast.AsyncFunctionDef)):
+    return 0
+  n_fold = 0
+  changed = True
+  while changed:
+    changed = False
+    for block in _blocks(fn):
+      for i, st in enumerate(block):
+        if not (isinstance(st, ast.Assign) and len(st.targets) == 1 and
+                isinstance(st.targets[0], ast.Name) and isinstance(
+                    st.value, ast.Constant) and isinstance(
+                        st.value.value, (bool, type(None)))):
+          continue
+        x, val = st.targets[0].id, bool(st.value.value)
+        for j in range(i + 1, len(block)):
+          nxt = block[j]
+          if isinstance(nxt, ast.If):
+            t, neg = nxt.test, False
+            if isinstance(t, ast.UnaryOp) and isinstance(t.op, ast.Not):
+              t, neg = t.operand, True
+            if isinstance(t, ast.Name) and t.id == x:
+              taken = nxt.body if (val != neg) else nxt.orelse
+              block[j:j + 1] = taken or [ast.copy_location(ast.Pass(), nxt)]
+              n_fold += 1
+              changed = True
+              break
+          if any(isinstance(y, ast.Name) and y.id == x and isinstance(
+              y.ctx, (ast.Store, ast.Del)) for y in ast.walk(nxt)):
+            break
+          if isinstance(nxt, (ast.FunctionDef, ast.ClassDef)):
+            break
+        if changed:
+          break
+      if changed:
+        break
+  if n_fold:
+    ast.fix_missing_locations(fn)
+  return n_fold
